@@ -161,6 +161,8 @@ pub struct St {
     pub hist: Vec<u16>,
     /// return value of the last action()
     pub last_added: bool,
+    /// receiver location currently passed to action()
+    pub rx: (f64, f64),
     key: Arc<Vec<u8>>,
 }
 
@@ -179,6 +181,8 @@ impl St {
             }
             k.push(r.even.is_some() as u8 | (r.odd.is_some() as u8) << 1);
         }
+        k.extend_from_slice(&self.rx.0.to_bits().to_le_bytes());
+        k.extend_from_slice(&self.rx.1.to_bits().to_le_bytes());
         k.push(self.viol.len() as u8);
         for v in &self.viol {
             k.push(v.0);
@@ -291,7 +295,7 @@ impl Tracker {
         let before_all = canon_real(&s.real, 1, now_abs);
         let len_before = s.real.len();
         let mut real = s.real.clone();
-        let (rx, range) = (self.rx, self.range);
+        let (rx, range) = (s.rx, self.range);
         let res = guarded(move || {
             let a = real.action(frame, rx, range);
             (real, a)
@@ -353,7 +357,7 @@ impl Tracker {
                             continue;
                         }
                         let prev = rec.position.map(unbits);
-                        let d = haversine_km(self.rx, c);
+                        let d = haversine_km(s.rx, c);
                         let dj = prev.map(|p| haversine_km(p, c));
                         let close = (d - self.range).abs() < THRESH_GUARD_KM || dj.map_or(false, |x| (x - 100.0).abs() < THRESH_GUARD_KM);
                         let verdict = if close {
@@ -473,7 +477,7 @@ impl Tracker {
                                 if m.position.is_none() && !m.published.is_empty() {
                                     self.wit("republish_after_clear");
                                 }
-                                let d_ref = haversine_km(self.rx, rp);
+                                let d_ref = haversine_km(s.rx, rp);
                                 match c.kilo_distance {
                                     Some(d) if (d - d_ref).abs() <= 1e-6 * d_ref + 0.001 => {}
                                     other => s.viol.push((13, "distance".into(), format!("{d_ref} km (great circle, R = 6371 km)"), format!("{other:?}"))),
@@ -569,8 +573,15 @@ impl Tracker {
                     if c.position.is_none() || c.kilo_distance.is_none() || alts.is_empty() {
                         s.viol.push((14, "details-without-data".into(), "None".into(), format!("{k}: {d:?}")));
                     } else {
-                        if !alts.contains(&d.altitude) {
-                            s.viol.push((14, "details-altitude".into(), format!("one of {alts:?}"), format!("{}", d.altitude)));
+                        // the altitude of one of the currently paired reports = the latest even / odd report (model)
+                        let model_alts: Vec<u16> = s
+                            .model
+                            .recs
+                            .get(&icao_u32(k))
+                            .map(|m| [m.even, m.odd].into_iter().flatten().filter_map(|a| a.alt).collect())
+                            .unwrap_or_default();
+                        if !alts.contains(&d.altitude) || (!model_alts.is_empty() && !model_alts.contains(&d.altitude)) {
+                            s.viol.push((14, "details-altitude".into(), format!("one of {model_alts:?} (latest even / odd report)"), format!("{}", d.altitude)));
                         }
                         let p = c.position.unwrap();
                         if d.position != p || Some(d.kilo_distance) != c.kilo_distance || d.heading != st.heading {
@@ -647,7 +658,7 @@ impl Model for Tracker {
     type Action = usize;
 
     fn init_states(&self) -> Vec<St> {
-        let mut s = St { real: Airplanes::new(), model: MState::default(), now: 0, depth: 0, viol: vec![], hist: vec![], last_added: false, key: Arc::new(vec![]) };
+        let mut s = St { real: Airplanes::new(), model: MState::default(), now: 0, depth: 0, viol: vec![], hist: vec![], last_added: false, rx: self.rx, key: Arc::new(vec![]) };
         s.rekey();
         vec![s]
     }
@@ -691,6 +702,7 @@ impl Model for Tracker {
                 }
             }
             Ev::Wait(ns) => s.now += ns,
+            Ev::Rx(la, lo) => s.rx = (*la, *lo),
             Ev::Prune(t) => self.step_prune(&mut s, *t),
         }
         vclock::clear();
@@ -934,6 +946,13 @@ pub fn c13(tier: Tier) -> i32 {
         let o = explore(&run, &format!("C13/{label}/d{depth}"), tracker(alphabet_c13(rx, range, tier), rx, range, 1_000_000_000, 13), depth);
         outs.push((label.to_string(), o));
     }
+    // the same model with 100 s of virtual time between frames: the plausibility rules do not depend on time
+    {
+        let rxs = (35.0, -80.0);
+        let ds = if tier.thorough() { 5 } else { 4 };
+        let o = explore(&run, &format!("C13/slow-traffic/d{ds}"), tracker(alphabet_c13(rxs, 2000.0, Tier::Quick), rxs, 2000.0, 100_000_000_000, 13), ds);
+        outs.push(("slow-traffic".into(), o));
+    }
     // polar receiver: jump rule boundary through consistent reports (NL = 1)
     {
         let rxp = (89.0, 10.0);
@@ -1044,6 +1063,10 @@ pub fn replay_history(input: &str) -> i32 {
             alphabet.push(Ev::Wait(r.trim_end_matches("ns)").parse().unwrap_or(0)));
         } else if let Some(r) = tok.strip_prefix("prune(") {
             alphabet.push(Ev::Prune(r.trim_end_matches("s)").parse().unwrap_or(0)));
+        } else if let Some(r) = tok.strip_prefix("rx(") {
+            if let Some((a, b)) = r.trim_end_matches(')').split_once(',') {
+                alphabet.push(Ev::Rx(a.parse().unwrap_or(0.0), b.parse().unwrap_or(0.0)));
+            }
         } else if let (Some(i), Some(j)) = (tok.find('['), tok.find(']')) {
             alphabet.push(Ev::Frame { name: tok[..i].to_string(), bytes: crate::bits::unhex(&tok[i + 1..j]) });
         }
